@@ -1,6 +1,7 @@
 """Unicode environment shared by the C10/C11/C16 checks: the `wc`/`sp` fields of a driver request are read
-from the LIVE cwcwidth (the functions curtsies.formatstring actually calls) and the live `re` on every run."""
+from the LIVE cwcwidth (imported HERE, never through the module under test) and the live `re` on every run."""
 import re
+import cwcwidth as _cw
 import curtsies.formatstring as F
 
 NARROW, WIDE, COMB = "a", "Ｅ", "́"
@@ -16,8 +17,29 @@ _SPACE = re.compile(r"\s")
 
 
 def wc(ch):
-    """width the library sees for one character (the very function object formatstring.py calls)"""
-    return F.wcwidth(ch)
+    """REFERENCE width of one character: cwcwidth.wcwidth itself, imported by the harness - never the name in
+    formatstring's namespace, which is part of the code under test"""
+    return _cw.wcwidth(ch)
+
+
+# literal widths the enumerations rely on (pinned: a different answer from the installed cwcwidth is infrastructure trouble)
+PINNED_WIDTHS = {"a": 1, "\uff25": 2, "\u0301": 0, "1": 1, "\U0001F44D": 2, "\U0001F3FD": 2, "\ufe0f": 0, "\u200d": 0,
+                 "\u093e": 1, "\u0915": 1, "b": 1, "\u8a9e": 2}
+
+
+def impl_width_violations():
+    """characters that the implementation measures differently from cwcwidth (its own stated measure):
+    -> list of (char, implementation width or exception name, reference width)"""
+    out = []
+    f = getattr(F, "wcwidth", None)
+    for ch in sorted(PINNED_WIDTHS):
+        try:
+            got = f(ch) if f is not None else _cw.wcwidth(ch)
+        except Exception as e:  # noqa: BLE001
+            got = type(e).__name__
+        if got != _cw.wcwidth(ch):
+            out.append((ch, got, _cw.wcwidth(ch)))
+    return out
 
 
 def is_space(ch):
@@ -61,15 +83,19 @@ def cut_layouts(s, palette, max_cuts=2):
 
 
 def self_check(ctx):
-    """the alphabet really has the three width classes under the live cwcwidth, and \\s agrees with str.isspace on
-    the whitespace used"""
+    """(1) the installed cwcwidth gives the pinned literal widths for every character the enumerations rely on - otherwise
+    the check cannot exercise what it claims to (InfraError, exit 2); (2) the width function the IMPLEMENTATION uses
+    (formatstring's `wcwidth`) agrees with cwcwidth on them - a difference is the implementation's, i.e. a violation with a
+    failing input (reported by the caller through ctx.violation)."""
     import lib
-    ws = (wc(NARROW), wc(WIDE), wc(COMB))
-    if ws != (1, 2, 0):
-        # a degenerate alphabet must not silently turn the enumeration into an ASCII-only run
-        raise lib.InfraError("live cwcwidth gives widths %r for the alphabet (narrow 'a', wide U+FF25, combining U+0301); "
-                             "expected (1, 2, 0): the check cannot exercise double-width/zero-width characters" % (ws,))
-    return ws
+    bad = {ch: wc(ch) for ch, w in PINNED_WIDTHS.items() if wc(ch) != w}
+    if bad:
+        raise lib.InfraError("the installed cwcwidth gives widths %r, the enumerations need %r: the check cannot exercise "
+                             "double-width / zero-width / sequence characters" % (bad, {c: PINNED_WIDTHS[c] for c in bad}))
+    for ch, got, want in impl_width_violations():
+        case = dict(op="width", f=[(ch, {})])
+        ctx.violation("the library measures U+%04X as %r columns, cwcwidth says %d" % (ord(ch), got, want), case, None)
+    return (1, 2, 0)
 
 
 # ------------------------------------------------------------------------------------------------
